@@ -167,8 +167,8 @@ CHECKS['C04'] = {
 
 NOT_APPLICABLE = {
     pid: 'check under construction in this session; not claimed yet'
-    for pid in [ 'C04', 'C06', 'C11', 'C12', 'C13',
-                'C14', 'C16', 'C17', 'C18', 'C19', 'C20']
+    for pid in ['C06', 'C11', 'C12', 'C13', 'C14', 'C16', 'C17', 'C18', 'C19', 'C20']
+    if pid not in CHECKS
 }
 
 for _e in ENGINES:
